@@ -468,6 +468,86 @@ Proof.
   - apply ranges_nth_s32; assumption.
 Qed.
 
+(* ---- the layout of range vectors: [from0; to0; from1; to1; ...] ------------------------------- *)
+Lemma flatten_length : forall r, length (flatten r) = (2 * length r)%nat.
+Proof. induction r as [|[a b] t IH]; cbn; [reflexivity|]. rewrite IH. lia. Qed.
+
+Lemma unflatten_flatten : forall r, unflatten (flatten r) = r.
+Proof. induction r as [|[a b] t IH]; cbn; congruence. Qed.
+
+Lemma flatten_unflatten : forall n v, length v = (2 * n)%nat -> flatten (unflatten v) = v.
+Proof.
+  induction n as [|n IH]; intros v H.
+  - destruct v; [reflexivity|discriminate].
+  - destruct v as [|a [|b t]]; cbn in H; try lia.
+    cbn. f_equal. f_equal. apply IH. lia.
+Qed.
+
+(* the handlers' indexing: slot d*2 holds from_d, slot d*2+1 holds to_d *)
+Theorem vec_layout : forall r d,
+  vec_get (flatten r) (d * 2) = fst (nth d r (0, 0)) /\
+  vec_get (flatten r) (d * 2 + 1) = snd (nth d r (0, 0)).
+Proof.
+  unfold vec_get. induction r as [|[a b] t IH]; intros d.
+  - cbn [flatten]. destruct d; cbn; [tauto|]. destruct (d * 2)%nat; destruct (d * 2 + 1)%nat; tauto.
+  - destruct d as [|d]; [cbn; tauto|]. specialize (IH d). cbn. exact IH.
+Qed.
+
+Lemma vec_dims_from_flatten : forall t pre,
+  vec_dims_from (length t) (length pre) (flatten (pre ++ t)) = t.
+Proof.
+  induction t as [|[a b] t IH]; intros pre; cbn [length vec_dims_from]; [reflexivity|].
+  destruct (vec_layout (pre ++ (a, b) :: t) (length pre)) as [L1 L2].
+  rewrite L1, L2. rewrite app_nth2 by lia. rewrite Nat.sub_diag. cbn [nth fst snd].
+  f_equal. specialize (IH (pre ++ [(a, b)])).
+  rewrite app_length in IH. cbn [length] in IH. rewrite Nat.add_1_r in IH.
+  rewrite <- app_assoc in IH. exact IH.
+Qed.
+
+(* what the per-dimension loop reads from the vector of a range is that range *)
+Theorem vec_dims_flatten : forall r, vec_dims (length r) (flatten r) = r.
+Proof. intros r. exact (vec_dims_from_flatten r []). Qed.
+
+(* the handlers on vectors are the handlers on lists of pairs *)
+Theorem slice_range_vec_spec : forall r1 r2, length r2 = length r1 ->
+  slice_range_vec (length r1) (Some (flatten r1)) (Some (flatten r2)) =
+  lift_flatten (slice_range (Some r1) (Some r2)).
+Proof.
+  intros r1 r2 H. unfold slice_range_vec, slice_range.
+  rewrite vec_dims_flatten. rewrite <- H. rewrite vec_dims_flatten. reflexivity.
+Qed.
+
+Theorem range_deref_vec_spec : forall r idx,
+  range_deref_vec (length r) (Some (flatten r)) idx = range_deref (Some r) idx.
+Proof. intros r idx. unfold range_deref_vec, range_deref. rewrite vec_dims_flatten. reflexivity. Qed.
+
+Theorem slice_deref_vec_spec : forall arr r idx,
+  slice_deref_vec (length r) (Some {| slv_arr := arr; slv_range := Some (flatten r) |}) idx =
+  slice_deref (Some {| sl_arr := arr; sl_range := Some r |}) idx.
+Proof. intros arr r idx. unfold slice_deref_vec. cbn [slv_arr slv_range]. rewrite vec_dims_flatten. reflexivity. Qed.
+
+Theorem slice_slice_vec_spec : forall arr r1 r2, length r2 = length r1 ->
+  slice_slice_vec (length r1) (Some {| slv_arr := arr; slv_range := Some (flatten r1) |}) (Some (flatten r2)) =
+  match slice_slice (Some {| sl_arr := arr; sl_range := Some r1 |}) (Some r2) with
+  | Ok s => Ok {| slv_arr := sl_arr s;
+                  slv_range := match sl_range s with Some r => Some (flatten r) | None => None end |}
+  | Exc e => Exc e
+  end.
+Proof.
+  intros arr r1 r2 H. unfold slice_slice_vec, slice_slice. cbn [slv_arr slv_range sl_arr sl_range].
+  rewrite vec_dims_flatten. rewrite <- H. rewrite vec_dims_flatten.
+  destruct (compose_ranges r1 r2); reflexivity.
+Qed.
+
+(* distinct values in every slot: any mix-up of slots changes what is read *)
+Example vec_layout_example :
+  flatten [(5, 1); (10, 13); (7, 2)] = [5; 1; 10; 13; 7; 2] /\
+  unflatten [5; 1; 10; 13; 7; 2] = [(5, 1); (10, 13); (7, 2)] /\
+  vec_dims 3 [5; 1; 10; 13; 7; 2] = [(5, 1); (10, 13); (7, 2)] /\
+  slice_range_vec 2 (Some [5; 1; 10; 13]) (Some [1; 3; 2; 0]) = Ok [4; 2; 12; 10] /\
+  range_deref_vec 2 (Some [4; 2; 12; 10]) [2; 1] = Ok [2; 11].
+Proof. repeat split; vm_compute; reflexivity. Qed.
+
 (* ---- hypotheses are satisfiable ---------------------------------------------------------------- *)
 Example slice_range_denotes_example :
   is_s32 10 /\ is_s32 3 /\
